@@ -120,6 +120,8 @@ class SimSpawn(_Rec, pexpect.spawn):
     def __init__(self, *a, **kw):
         self._rec_init()
         pexpect.spawn.__init__(self, *a, **kw)
+        if shim.W is not None and shim.W.on_spawn is not None:
+            shim.W.on_spawn(self)
 
     def _spawnpty(self, args, **kwargs):
         W = shim.W
